@@ -76,6 +76,8 @@ def _write(i, j, k, how):
             files = [os.path.join(tmp, f) for f in sorted(os.listdir(tmp))]
             if m.compare(*files, solution=sol):
                 return False             # the model compared with its own written files: no difference
+            if any(m.compare(f, solution=sol) for f in files):
+                return False             # ... nor with any one of them alone
         else:
             books = m.write(books=pre, solution=sol)
             if len({b.upper() for b in books}) != len(books):
@@ -92,8 +94,11 @@ def _write(i, j, k, how):
             import re
             if '[' not in sid or not sid.startswith("'") or not re.search(r"![A-Z]{1,3}[0-9]+(:[A-Z]{1,3}[0-9]+)?$", key):
                 continue                 # defined names have no place of their own on a sheet
-            book, sheet = sid.strip("'").split(']')
-            book = book.strip('[').upper()
+            book, sheet = sid[1:-1].split(']')
+            book, sheet = book.strip('[').upper(), sheet.replace("''", "'")
+            if sheet not in books[book][BOOK].sheetnames and sheet.upper() not in [n.upper() for n in books[book][BOOK].sheetnames]:
+                return False             # at its own sheet
+            sheet = [n for n in books[book][BOOK].sheetnames if n.upper() == sheet.upper()][0]
             ws = books[book][BOOK][sheet]
             val = r.value
             for a in range(val.shape[0]):
